@@ -60,4 +60,34 @@ CLAIMS = {
         "and the iterator closure reading after the unlock are refuted in Coq and reproduced by the race detector; fix: fixes/C17_locks.diff.",
    technique="Coq proof (lockset invariant, linearizability by refinement) + lock-table extraction tie + race-detector history search judged by a verified checker",
    ref="5/C17"),
+ "C02": dict(
+   text="Coq: C02_inherit_field characterises, field by field, the caveats shown to the derivation rule as 'delegated' (a field the delegation sets keeps its value, an unset field is inherited from the claim); C02_enforced: for every world/context/descriptor (any reader, any rule), at EVERY step of every authorization Access returns the rule accepted the claim against the capability whose caveats are read from inherit(claim, caveats written in the proof); C02_attest_bound: a re-delegated ucan/attest is bound by its parent's proof caveat. Tie: the exhaustive depth x level x field x {omits,matches,contradicts} x restatement product (264 worlds) + malformed caveat kinds + attestation re-delegation variants run through validator.Access with a recording Derives function; verdict, path and the Derives argument log must equal the model's.",
+   note="Symbolic signatures (unforgeability of Ed25519/RSA assumed; the harness states which key signed each token's current fields), CIDs as identities (SHA-256 collision freedom), hypothesis Hres (the proof resolver returns the delegation asked for), model starts at decoded tokens, caller-supplied functions are mirrored Go/Gallina pairs. Requires the fix commits listed in KNOWN_FINDINGS.txt. No axioms (Closed under the global context).",
+   technique='Coq proof (invariant on every derivation step of every returned chain, all worlds) + exhaustive differential correspondence incl. Derives-argument log',
+   ref='5/C02'),
+ "C03": dict(
+   text='Coq: IsExpired/IsTooEarly characterised (expired iff exp <= now; too early iff nbf set and now <= nbf; no expiration never expires; strictly inside is never rejected) and re-translated from ucan/lib.go on every run (Tie_Time); C03_validate_window: no token passes Validate outside its window; C03_path_window / C03_session_window: the invocation, the proof at every step of every returned authorization and the attestation at the root of every session authorization are inside their windows, for all worlds. Tie: position(8) x expiration(6) x not-before(6) = 288 worlds built relative to the exact wall-clock second at which Access runs (retried if the second changes), compared with the model at now = that second.',
+   note="Symbolic signatures (unforgeability of Ed25519/RSA assumed; the harness states which key signed each token's current fields), CIDs as identities (SHA-256 collision freedom), hypothesis Hres (the proof resolver returns the delegation asked for), model starts at decoded tokens, caller-supplied functions are mirrored Go/Gallina pairs. Requires the fix commits listed in KNOWN_FINDINGS.txt. No axioms (Closed under the global context). Wall clock sampled before and after each call; cases that straddle a second are retried.",
+   technique='Coq proof (laws + window invariant over all chains) + Go->Gallina translation tie + exhaustive boundary-second correspondence',
+   ref='5/C03'),
+ "C04": dict(
+   text="Coq: C04_nonkey: a token whose issuer is neither did:key nor the authority passes Validate only through (a) a session authorization satisfying the chain specification for ucan/attest on the authority's DID with proof = exactly that token, searched among its sibling proofs other than itself, or (b) a failed session search without failed proofs plus a key resolver result whose did:key verifier accepts the signature; C04_attestation_shape / C04_other_rejected / C04_redelegated_bound / C04_escalation give the negative clauses (other token, other resource, other ability, parent proof caveat, broken chain => SessionEscalation even with a resolvable key). Tie: the full 864-world product named by the property through validator.Access vs the model.",
+   note="Symbolic signatures (unforgeability of Ed25519/RSA assumed; the harness states which key signed each token's current fields), CIDs as identities (SHA-256 collision freedom), hypothesis Hres (the proof resolver returns the delegation asked for), model starts at decoded tokens, caller-supplied functions are mirrored Go/Gallina pairs. Requires the fix commits listed in KNOWN_FINDINGS.txt. No axioms (Closed under the global context).",
+   technique='Coq proof (refinement of Validate to the (a)/(b) disjunction + negative lemmas, all worlds) + exhaustive 864-case differential correspondence',
+   ref='5/C04'),
+ "C05": dict(
+   text="Coq: C05_checked: Access returns an authorization only after the checker was consulted on that same authorization (trace event) and accepted it — self-issued and delegated branches; C05_exposes: the authorization is a path exposing every delegation from invocation to root; C05_guarantee: a checker rejecting every authorization that contains a revoked delegation guarantees none is returned; C05_reported: a rejected candidate is reported in the Unauthorized error. Tie: depth x revoked position x second chain x caveat shape worlds with a recording checker; the sequence of authorizations handed to the checker (links + capabilities along Proofs(), after ConvertUnknownAuthorization), its verdicts, the final verdict and the revocation report must equal the model's.",
+   note="Symbolic signatures (unforgeability of Ed25519/RSA assumed; the harness states which key signed each token's current fields), CIDs as identities (SHA-256 collision freedom), hypothesis Hres (the proof resolver returns the delegation asked for), model starts at decoded tokens, caller-supplied functions are mirrored Go/Gallina pairs. Requires the fix commits listed in KNOWN_FINDINGS.txt. No axioms (Closed under the global context).",
+   technique='Coq proof (trace invariant: checker consulted on the returned authorization; guarantee lemma) + differential correspondence incl. checker-argument log',
+   ref='5/C05'),
+ "C06": dict(
+   text="Coq: C06_complete / C06_authorize_complete: when a chain exists among the validated sources (membership-based, order-free inductive 'derivable'/'claimable') and nothing is revoked, Access never answers with an error; C06_authorized_iff_derivable (converse), C06_select_all (every capability of every source is considered), C06_order_irrelevant (permuting candidates does not change failure), C06_returned_chain_valid (= C01). Tie: random worlds with decoys, duplicates, dangling links, multi-capability tokens, each also under random permutations of every proof and capability list and with inline proofs moved to the resolver: every world compared with the model, and all permutations of a base world must get the same verdict from the implementation.",
+   note="Symbolic signatures (unforgeability of Ed25519/RSA assumed; the harness states which key signed each token's current fields), CIDs as identities (SHA-256 collision freedom), hypothesis Hres (the proof resolver returns the delegation asked for), model starts at decoded tokens, caller-supplied functions are mirrored Go/Gallina pairs. Requires the fix commits listed in KNOWN_FINDINGS.txt. No axioms (Closed under the global context). Completeness is stated modulo fuel exhaustion (never met in the runs); permutation invariance across sessions is covered by the differential oracle, the theorem covers one search level for arbitrary recursive results.",
+   technique='Coq proof (search completeness w.r.t. an order-free inductive spec, permutation lemma) + differential correspondence under permutations + metamorphic verdict oracle',
+   ref='5/C06'),
+ "C19": dict(
+   text="Coq: the full statement (verifications <= n^2+2 for n distinct delegations, every DAG shape) is REFUTED of the faithful model: C19_refuted with the witness layered DAG width 3 depth 5 (16 delegations, 364 verifications, vm_compute), growth table 4,13,40,121,364; C19_chains_linear_partial (finite instances). Tie: chains, trees and layered DAGs with succeeding/failing roots through validator.Access with a counting verifier: the number and order of Verify calls must EQUAL the model's (so the exponential count is the implementation's), and every shape is compared with the bound; layered DAGs with failing roots are the recorded KNOWN-FINDING, any other shape exceeding the bound is a violation.",
+   note="Symbolic signatures (unforgeability of Ed25519/RSA assumed; the harness states which key signed each token's current fields), CIDs as identities (SHA-256 collision freedom), hypothesis Hres (the proof resolver returns the delegation asked for), model starts at decoded tokens, caller-supplied functions are mirrored Go/Gallina pairs. Requires the fix commits listed in KNOWN_FINDINGS.txt. No axioms (Closed under the global context). Known finding key layered-dag (KNOWN_FINDINGS.txt): not repaired because memoisation would have to thread a per-Access cache through exported functions.",
+   technique='Coq refutation by witness (vm_compute) + exact verification-count correspondence + bound oracle with known-finding key',
+   ref='5/C19'),
 }
